@@ -183,6 +183,19 @@ class Ctx:
                 txt_nc = re.sub(r"\(\*.*?\*\)", "", txt, flags=re.S)
                 for m in FORBIDDEN.finditer(txt_nc):
                     bad.append("%s: %s" % (f, m.group(0)))
+                # a Variable / Hypothesis / Context outside a Section declares an axiom
+                stack = []
+                for ln in txt_nc.splitlines():
+                    mm = re.match(r"\s*(Section|Module Type|Module)\s+([A-Za-z0-9_']+)", ln)
+                    if mm and ":=" not in ln:
+                        stack.append((mm.group(1), mm.group(2)))
+                        continue
+                    mm = re.match(r"\s*End\s+([A-Za-z0-9_']+)\s*\.", ln)
+                    if mm and stack:
+                        stack.pop()
+                        continue
+                    if re.match(r"\s*(Local\s+|Global\s+)?(Variables?|Hypothes[ie]s|Context)\b", ln) and not any(k == "Section" for k, _ in stack):
+                        bad.append("%s: %s outside a Section" % (f, ln.strip()[:60]))
         # assumptions printed
         axioms = set()
         closed = 0
